@@ -347,3 +347,31 @@ Proof.
   destruct (nth_error (link _) i) as [x|] eqn:Ex; [|discriminate]. destruct (nth_error (link _) (S i)) as [y|] eqn:Ey; [|discriminate].
   cbn [option_map] in Ha, Hb. injection Ha as <-. injection Hb as <-. cbn [image_of fst snd]. exact (link_chain _ i x y Ex Ey).
 Qed.
+
+(* ---------- the tail id a flush persists ---------- *)
+Lemma do_flush_tail_id s fo : match snd (do_flush s fo) with
+  | FDone _ _ _ => snd (q_tail (ws_root (fst (do_flush s fo)))) = ws_evId (fst (do_flush s fo))
+  | _ => ws_root (fst (do_flush s fo)) = ws_root s end.
+Proof.
+  unfold do_flush. destruct (flush_range (ws_buf s)) as [n rep]. destruct n; [reflexivity|]. destruct fo; reflexivity.
+Qed.
+
+Lemma flush_buffer_tail_id s fo : match snd (flush_buffer s fo) with
+  | WOk (Some (FDone _ _ _, _)) => snd (q_tail (ws_root (fst (flush_buffer s fo)))) = ws_evId (fst (flush_buffer s fo))
+  | _ => True end.
+Proof.
+  unfold flush_buffer. pose proof (do_flush_tail_id s fo) as H. destruct (do_flush s fo) as [s1 r]. cbn [fst snd] in H.
+  destruct r; cbn [fst snd ws_root ws_evId]; auto.
+Qed.
+
+Theorem w_step_tail_id PS s o s' fr cb : w_step PS s o = (s', WOk (Some (fr, cb))) ->
+  match o, fr with
+  | WNext _, FDone _ _ _ | WFlush _, FDone _ _ _ => snd (q_tail (ws_root s')) = ws_evId s'
+  | _, _ => True end.
+Proof.
+  intros E. destruct o as [d fo|fo|fo]; [exact I| |]; cbn [w_step] in E.
+  - destruct (b_avail _ <=? _)%Z; [|discriminate].
+    match type of E with flush_buffer ?x fo = _ => pose proof (flush_buffer_tail_id x fo) as H end. rewrite E in H. cbn [fst snd] in H.
+    destruct fr; auto.
+  - pose proof (flush_buffer_tail_id s fo) as H. rewrite E in H. cbn [fst snd] in H. destruct fr; auto.
+Qed.
